@@ -1712,6 +1712,7 @@ impl Database {
                 let storage = storage_arc.read();
 
                 let root_page = read_root_page(&storage)?;
+                let source_is_projected = projections.is_some();
                 let source: BTreeSource = if scan.reverse {
                     BTreeSource::Reverse(
                         ReverseBTreeSource::from_btree_scan_reverse_with_projections(
@@ -1740,7 +1741,7 @@ impl Database {
                 } else {
                     ExecutionContext::with_scalar_subqueries_and_budget(&arena, &scalar_subquery_results, memory_budget)
                 };
-                let builder = ExecutorBuilder::new(&ctx);
+                let builder = ExecutorBuilder::new(&ctx).with_projected_source(source_is_projected);
 
                 let all_columns_map = build_simple_column_map(table_def);
 
